@@ -416,9 +416,15 @@ class Interp:
         for loc in sorted(seen):
             old = ctx.heap[loc]
             ctx.heap[loc] = self.fresh_like(old, "hv%d" % loc)
+        hv = getattr(self.c, "havoc_var", None)
         for n in sorted(names):
             if n in ctx.env:
                 v = ctx.env[n]
+                if hv is not None:
+                    nv = hv(ctx, self, n, v)
+                    if nv is not None:
+                        ctx.env[n] = nv
+                        continue
                 if isinstance(v, VRef):
                     # the name may be rebound to another cell: fresh cell
                     if n in spec.get("rebound", ()):
@@ -445,8 +451,10 @@ class Interp:
                                for k, f in v.fields.items()})
         if isinstance(v, VTuple):
             return VTuple([self.fresh_like(x, base) for x in v.items])
-        if isinstance(v, (VNone, VFunc, VClass, VPy, VExc)):
+        if isinstance(v, (VNone, VFunc, VClass, VExc)):
             return v
+        if isinstance(v, VPy):
+            return VPy("<havocked>")
         if z3.is_expr(v):
             return z3.Const(fresh_name(base), v.sort())
         if hasattr(v, "fresh_like"):
